@@ -41,6 +41,7 @@ func guardPanic(panics *int, fn func()) {
 }
 
 func runInt(sw *shardWriter, j *jb, data []byte, st *genStats) {
+	data = relayout(data)
 	orig := append([]byte{}, data...)
 	panics := 0
 	j.reset()
@@ -272,7 +273,7 @@ func runStr(sw *shardWriter, j *jb, input []byte, dstSlack int, st *genStats) {
 	orig := append([]byte{}, input...)
 	panics := 0
 	var es []strEntry
-	fresh := func() []byte { return append(make([]byte, 0, len(input)), input...) }
+	fresh := func() []byte { return relayout(input) }
 	// 1..3 ReadString with nil / dirty / tiny scratch; later overwrite of input and scratch
 	// (7..9: a pointer to a nil slice - the idiomatic `var scratch []byte` -, an empty non-nil one, an empty roomy one)
 	for ki, mk := range []func() *[]byte{
@@ -365,6 +366,7 @@ func runStr(sw *shardWriter, j *jb, input []byte, dstSlack int, st *genStats) {
 }
 
 func runUnesc(sw *shardWriter, j *jb, content []byte, pre []byte, slack int, st *genStats) {
+	content = relayout(content)
 	orig := append([]byte{}, content...)
 	panics := 0
 	var val, post []byte
@@ -593,6 +595,7 @@ func errClass(err error) int {
 }
 
 func runTok(sw *shardWriter, j *jb, data []byte, st *genStats) {
+	data = relayout(data)
 	orig := append([]byte{}, data...)
 	panics := 0
 	j.reset()
@@ -969,6 +972,7 @@ var decodeFns = []decodeFn{
 }
 
 func runDecode(sw *shardWriter, j *jb, fi int, data []byte, st *genStats) {
+	data = relayout(data)
 	orig := append([]byte{}, data...)
 	panics := 0
 	var rdOK bool
@@ -1149,6 +1153,7 @@ func genDecodes(c *genCtx, sw *shardWriter, j *jb) {
 
 // ---------------------------------------------------------------- sanitize
 func runSan(sw *shardWriter, j *jb, data []byte, pre []byte, slack int, st *genStats) {
+	data = relayout(data)
 	orig := append([]byte{}, data...)
 	panics := 0
 	var s string
